@@ -19,22 +19,32 @@ LEVEL = "exploration"
 RULE = ("invocations: {{#invoke:echo|fn|ARGS}} with ARGS of length 0-6 mixing positional / named / numeric-named arguments, "
         "blanks around names and values, nested template calls and #if as values, at wrapper depth 0..2 (page -> template -> "
         "template -> #invoke); preprocess fragments from the expansion grammar; expandTemplate / callParserFunction with plain-text "
-        "values (blanks, no | = braces) in all call forms. non-trivial = distinct (function, rendered call, wrapper depth) that "
+        "values (blanks, no | = braces) in all call forms. Added argument shapes (35% of the vectors, 1-2 arguments each): a value built "
+        "from brace helper templates that EXPANDS TO text that is itself wikitext syntax ({{ta|x}}, {{{1}}}, ==x==), a value shaped like a "
+        "heading line ('=='+text/calls+'=='), numeric names above 1000, names equal to the sentinel/fields of the Lua-side argument table "
+        "(***nil***, _orig, ...), names containing a call ({{lc:N}}=v); 25% of the wrapped invocations just pass the wrapper's parameters "
+        "on ({{#invoke:echo|args|{{{1}}}|k={{{n|}}}}}). preprocess: 12% of the fragments are heading-shaped as a whole. "
+        "callParserFunction: 35% of the table forms carry named keys (#switch cases, #tag attributes) or 10-13 positional values. non-trivial = distinct (function, rendered call, wrapper depth) that "
         "reached the Lua side (echo output parsed back)")
 ASSUMPTIONS = ["Lua stand-ins for the absent Scribunto ustring/libraryUtil files (byte semantics; workloads are ASCII + a few UTF-8 letters passed through unchanged)",
                "raw wikitext reaches frame:preprocess through a per-case data module (require), never through frame.args",
-               "tagged class: positional value ending in a newline (make_frame strips one trailing newline on purpose)"]
+               "tagged class: positional value ending in a newline (make_frame strips one trailing newline on purpose)",
+               "the equivalent call of a Lua argument table is the Scribunto manual's: keys 1..n positional in numeric order, any other key k as 'k=value' (sorted by name)",
+               "values containing '=' text are not passed on through {{{n}}} into a nested TEMPLATE call (the template expander re-reads them as name=value: C04's subject, not the Lua bridge)"]
 WALL = {"quick": 900, "thorough": 5400}
 
 ECHO = r'''local e = {}
 local function ser(args)
   local keys = {}
-  for k, v in pairs(args) do keys[#keys+1] = k end
+  for k, v in pairs(args) do
+    keys[#keys+1] = k
+    if #keys > 40 then return "[s:7:ENDLESS:0]" end   -- no generated vector has more than 12 arguments
+  end
   table.sort(keys, function(a, b) return (type(a) .. tostring(a)) < (type(b) .. tostring(b)) end)
   local out = {}
   for _, k in ipairs(keys) do
-    local v = args[k]
-    out[#out+1] = "[" .. (type(k) == "number" and "n" or "s") .. ":" .. tostring(k) .. ":" .. #tostring(v) .. "]" .. tostring(v)
+    local v = tostring(args[k]):gsub("\127", "<DEL>")    -- (DEL is dropped from the page output: keep lengths right)
+    out[#out+1] = "[" .. (type(k) == "number" and "n" or "s") .. ":" .. #tostring(k) .. ":" .. tostring(k) .. ":" .. #tostring(v) .. "]" .. tostring(v)
   end
   return table.concat(out)
 end
@@ -80,7 +90,12 @@ def floors(tier):
             "oracle.expandTemplate==wikitext": 300, "oracle.callParserFunction==wikitext": 300, "oracle.result-replaces-call": 1000,
             "counters.depth.0": 50, "counters.depth.1": 50, "counters.depth.2": 50, "counters.cpf.form.1": 30,
             "counters.cpf.form.2": 30, "counters.cpf.form.3": 30, "anchors.luaexec.make_frame": 500,
-            "anchors.luaexec.preprocess": 300, "anchors.luaexec.expandTemplate": 100, "anchors.luaexec.callParserFunction": 100}
+            "anchors.luaexec.preprocess": 300, "anchors.luaexec.expandTemplate": 100, "anchors.luaexec.callParserFunction": 100,
+            # the added input classes must really have been seen
+            "counters.args.shape.value-expands-to-wikitext-syntax": 300, "counters.args.shape.heading-shaped-value": 300,
+            "counters.args.shape.numeric-name>1000": 300, "counters.args.shape.name=args-table-internal": 300,
+            "counters.args.shape.name-with-nested-call": 300, "counters.args.shape.parameters-passed-on": 300,
+            "counters.pre.heading-shaped": 300, "counters.cpf.table.named-key": 200, "counters.cpf.table.10+positional": 200}
 
 
 def shards(tier, seed):
@@ -149,15 +164,13 @@ class Mon:
             return "\x02EXC " + exc_sig(e)
 
 
-SER = re.compile(r"\[([nst]):([^:\]]*):(\d+)\]", re.S)
-
-
-SERB = re.compile(rb"\[([nst]):([^:\]]*):(\d+)\]", re.S)
+SERB = re.compile(rb"\[([ns]):(\d+):")
+SERV = re.compile(rb":(\d+)\]")
 
 
 def parse_ser(s):
-    """Parse '[n:1:3]abc[s:k:2]xy' into {1: 'abc', 'k': 'xy'} (lengths are BYTE lengths, as Lua counts);
-    returns (map, ok)."""
+    """Parse '[n:1:1:3]abc[s:1:k:2]xy' into {1: 'abc', 'k': 'xy'} (type, key length, key, value length; lengths are
+    BYTE lengths, as Lua counts); returns (map, ok)."""
     b = s.encode("utf-8")
     out = {}
     i = 0
@@ -165,11 +178,19 @@ def parse_ser(s):
         m = SERB.match(b, i)
         if not m:
             return out, False
-        ln = int(m.group(3))
-        v = b[m.end(): m.end() + ln].decode("utf-8", "replace")
-        k = int(m.group(2)) if m.group(1) == b"n" else m.group(2).decode("utf-8")
+        kl = int(m.group(2))
+        kb = b[m.end(): m.end() + kl]
+        m2 = SERV.match(b, m.end() + kl)
+        if not m2:
+            return out, False
+        ln = int(m2.group(1))
+        v = b[m2.end(): m2.end() + ln].decode("utf-8", "replace")
+        try:
+            k = int(kb) if m.group(1) == b"n" else kb.decode("utf-8")
+        except ValueError:
+            return out, False
         out[k] = v
-        i = m.end() + ln
+        i = m2.end() + ln
     return out, True
 
 
@@ -195,7 +216,107 @@ def render_args(args):
     return "".join("|" + p for p in parts)
 
 
-def gen_args(rng, lib, in_body, tags):
+# --- argument shapes beyond the shared grammar (all within the statement: "positional/named/numeric names ... nested
+# template calls as values"): each mutator rewrites one argument of a generated vector and names the feature ---------
+# brace helper templates (Template:(( etc. of the wikis): a value built from them EXPANDS TO text that is itself
+# wikitext syntax; by the statement that text is the argument ("after expansion"), it is not expanded again
+LIBX = {"ob": "{{", "cb": "}}", "pp": "|", "eq": "="}
+LITERALS = [["{{", "ta", "|", "x", "}}"], ["{{", "tb", "}}"], ["{{", "missing", "|", "a", "}}"], ["{{", "{1}", "}}"],
+            ["{{", "#if:1", "|", "y", "|", "n", "}}"], ["{{", "lc:AB", "}}"], ["a", "{{", "td", "}}", " b"],
+            ["=", "=", "x", "=", "="], ["=", " {{", "ta", "}} ", "="]]
+LITCALL = {"{{": "ob", "}}": "cb", "|": "pp", "=": "eq"}
+# names that collide with the bookkeeping of the Lua-side argument table (iteration sentinel / private fields)
+PROXY_NAMES = ["***nil***", "_orig", "_frame", "_next_key", "_preprocessed"]
+BIG_NUMS = ["1001", "2023", "2024", "100000"]
+# (rendered name, name after expansion)
+COMPUTED_NAMES = [("{{lc:N}}", "n"), ("{{uc:m}}", "M"), ("{{ta|k}}", "\u27e8k\u27e9"), (" {{lc:K}}x ", "kx"), ("{{#if:1|n}}", "n")]
+
+
+def lit_value(tokens):
+    out = []
+    for t in tokens:
+        if t in LITCALL:
+            out.append(("C", LITCALL[t], LITCALL[t], []))
+        else:
+            for i, piece in enumerate(re.split(r"(\{\{|\}\})", t)):      # " {{" -> text + call
+                if piece in LITCALL:
+                    out.append(("C", LITCALL[piece], LITCALL[piece], []))
+                elif piece:
+                    out.append(("T", piece))
+    return ("S", out)
+
+
+def heading_value(rng, lib, in_body, tags):
+    """'==' + inner + '==': the whole value is shaped like a heading line (inner: text and calls without '=')."""
+    cfg = G.Cfg(include_tags=False, missing=True, table_marker=False, switch=False, markers=False, newlines=False, max_args=1)
+    for _ in range(20):
+        inner = G.seq(rng, 2, lib, in_body, cfg, tags)
+        r = G.render(inner)
+        if "=" not in r and r.strip():
+            break
+    else:
+        inner = ("S", [("T", "x")])
+    eqs = "=" * rng.randint(1, 3)
+    return ("S", [("T", eqs)] + inner[1] + [("T", eqs)])
+
+
+def mutate_args(rng, args, lib, in_body, tags, feats, equals=True):
+    """Rewrite at most two arguments of the vector into one of the special shapes; feats collects their names.
+    equals=False: no value whose text contains '=' (such a value passed on through {{{n}}} into another TEMPLATE call
+    is re-read as name=value by the template expander: argument passing between templates is property C04's subject)."""
+    if not args:
+        if rng.random() < 0.3:
+            args = [("pos", ("S", [("T", "v")]))]
+        else:
+            return args
+    for _ in range(rng.choice([0, 1, 1, 2])):
+        i = rng.randrange(len(args))
+        a = args[i]
+        r = rng.random()
+        val = a[1] if a[0] == "pos" else a[3]
+        if not equals and 0.30 <= r < 0.55:
+            r = 0.0
+        if r < 0.30:
+            val = lit_value(rng.choice([x for x in LITERALS if equals or "=" not in x]))
+            feats.add("value-expands-to-wikitext-syntax")
+            args[i] = ("pos", val) if a[0] == "pos" else a[:3] + (val,) + a[4:]
+        elif r < 0.55:
+            val = heading_value(rng, lib, in_body, tags)
+            feats.add("heading-shaped-value")
+            args[i] = ("pos", val) if a[0] == "pos" else a[:3] + (val,) + a[4:]
+        elif r < 0.70:
+            k = rng.choice(BIG_NUMS)
+            feats.add("numeric-name>1000")
+            args[i] = ("named", rng.choice(["", " "]) + k + rng.choice(["", " "]), k, val, "", rng.choice(["", " "]))
+        elif r < 0.85:
+            k = rng.choice(PROXY_NAMES)
+            feats.add("name=args-table-internal")
+            args[i] = ("named", k + rng.choice(["", " "]), k, val, rng.choice(["", " "]), "")
+        else:
+            raw, k = rng.choice(COMPUTED_NAMES)
+            feats.add("name-with-nested-call")
+            args[i] = ("named", raw, k, val, rng.choice(["", " "]), "")
+    return args
+
+
+def passthrough_args(rng):
+    out = []
+    for _ in range(rng.randint(1, 4)):
+        key = rng.choice(["1", "2", "3", "n", "m"])
+        val = [("P", key, key, ("S", [("T", "")]) if rng.random() < 0.5 else None)]
+        if rng.random() < 0.3:
+            val.insert(0, ("T", rng.choice(["a ", "x1", " "])))
+        if rng.random() < 0.3:
+            val.append(("T", rng.choice([" b", "2", " "])))
+        if rng.random() < 0.6:
+            out.append(("pos", ("S", val)))
+        else:
+            k = rng.choice(["n", "k k", "2", "m"])
+            out.append(("named", k + rng.choice(["", " "]), k, ("S", val), rng.choice(["", " "]), rng.choice(["", " "])))
+    return out
+
+
+def gen_args(rng, lib, in_body, tags, feats=None, equals=True):
     cfg = G.Cfg(include_tags=False, missing=True, table_marker=False, switch=False)
     node = None
     while node is None or node[0] != "C":
@@ -207,7 +328,10 @@ def gen_args(rng, lib, in_body, tags):
             args += n2[3]
         else:
             args.append(("pos", ("S", [n2])))
-    return args[:6]
+    args = args[:6]
+    if feats is not None and rng.random() < 0.35:
+        args = mutate_args(rng, args, lib, in_body, tags, feats, equals)
+    return args
 
 
 # (delimiters that are not wikitext syntax: nested "[..]" would form [[links]], "<..>" could look like tags)
@@ -216,13 +340,53 @@ LIBA = {k: None for k in LIBT}
 
 
 def lib_ast():
-    # ASTs equivalent to LIBT for the reference evaluator
+    # ASTs equivalent to LIBT (+ LIBX) for the reference evaluator
     T = lambda s: ("T", s)
     S = lambda *x: ("S", list(x))
-    return {"ta": S(T("\u27e8"), ("P", "1", "1", S(T(""))), T("\u27e9")),
-            "tb": S(T("\u27e6"), ("P", "1", "1", S(T(""))), T("\u00a6"), ("P", "n", "n", S(T("dn"))), T("\u27e7")),
-            "tc": S(T(" x"), ("P", "2", "2", S(T(" d2 "))), T(" ")),
-            "td": S(T("* li"))}
+    d = {"ta": S(T("\u27e8"), ("P", "1", "1", S(T(""))), T("\u27e9")),
+         "tb": S(T("\u27e6"), ("P", "1", "1", S(T(""))), T("\u00a6"), ("P", "n", "n", S(T("dn"))), T("\u27e7")),
+         "tc": S(T(" x"), ("P", "2", "2", S(T(" d2 "))), T(" ")),
+         "td": S(T("* li"))}
+    for k, v in LIBX.items():
+        d[k] = S(T(v))
+    return d
+
+
+HMARK = re.compile("(?:\x7f|<DEL>)'\"`UNIQ--h-\\d+-QINU`\"'(?:\x7f|<DEL>)")
+
+
+def classify(exp, got, feats, parent=False, passed_on=False):
+    """Mechanism tag for a difference between the expected and the reported argument map: decided from the input
+    features of the case and from what exactly differs (first matching rule).  A tag starting with '=' is a complete
+    signature (one mechanism seen through several API routes)."""
+    ek, gk = set(map(repr, exp)), set(map(repr, got))
+    if "ENDLESS" in got or ("***nil***" in exp and gk < ek):
+        # pairs() over the argument table never ends or stops early
+        return "=args-table/pairs-broken" + ("/name=iteration-sentinel" if "***nil***" in exp else "")
+    if ek != gk:
+        if any(isinstance(k, int) and k > 1000 for k in exp) and any(isinstance(k, int) and k > 1000 and k not in got for k in exp):
+            return "/keys/numeric-name>1000"
+        if "name-with-nested-call" in feats and any(isinstance(k, str) and "{{" in k for k in got):
+            return "/keys/name-with-nested-call"
+        if passed_on and not parent and ("heading-shaped-value" in feats or "value-expands-to-wikitext-syntax" in feats):
+            return "/keys/value-with-equals-sign+passed-on-as-parameter"
+        return "/keys"
+    bad = [k for k in exp if exp[k] != got[k]]
+    if any(k in PROXY_NAMES and got[k].startswith("table: ") for k in bad):
+        return "=args-table/value-shadowed/name=private-field"
+    if parent:
+        # the enclosing template's arguments are expanded text; whatever changes them now is a second expansion
+        if any(HMARK.search(got[k]) for k in bad) or "value-expands-to-wikitext-syntax" in feats:
+            return "/values/value-expanded-again"
+        return "/values"
+    if any(HMARK.search(got[k]) for k in bad):
+        if all(HMARK.sub("", got[k]) == exp[k] for k in bad):
+            return "=heading-shaped-text/strip-marker-added"
+        if not (passed_on and "value-expands-to-wikitext-syntax" in feats):
+            return "=heading-shaped-text/inner-text-not-expanded"
+    if "value-expands-to-wikitext-syntax" in feats:
+        return "/values/value-expands-to-wikitext-syntax" + ("+passed-on-as-parameter" if passed_on else "")
+    return "/values"
 
 
 def case_args(mon, rng, obs):
@@ -231,21 +395,32 @@ def case_args(mon, rng, obs):
     depth = rng.randrange(3)
     names = list(LIBT)
     ref = Ref(lib_ast())
-    iargs = gen_args(rng, names, depth > 0, tags)
+    feats = set()
+    passthrough = depth > 0 and rng.random() < 0.25
+    if passthrough:
+        # the usual wrapper: the template hands its own parameters on to the module, one per argument
+        iargs = passthrough_args(rng)
+        feats.add("parameters-passed-on")
+    else:
+        iargs = gen_args(rng, names, depth > 0, tags, feats)
+    # a value containing '=' text is only given to a parameter that is not passed on INSIDE a nested template call
+    # (there the template expander re-reads it as name=value: argument passing between templates, property C04)
+    eq1 = passthrough or "{{{" not in render_args(iargs)
     inv = "{{#invoke:echo|args" + render_args(iargs) + "}}"
     texts = dict(LIBT)
+    texts.update(LIBX)
     frame = None
     ptitle = None
     if depth == 0:
         page = "«" + inv + "»"
     else:
-        a1 = gen_args(rng, names, depth > 1, tags)
+        a1 = gen_args(rng, names, depth > 1, tags, feats, equals=eq1)
         texts["w1"] = "«" + inv + "»"
         if depth == 1:
             page = "{{w1" + render_args(a1) + "}}"
             frame = argmap(ref, a1, None)
         else:
-            a2 = gen_args(rng, names, False, tags)
+            a2 = gen_args(rng, names, False, tags, feats, equals=False)
             texts["w2"] = "{{w1" + render_args(a1) + "}}"
             page = "{{w2" + render_args(a2) + "}}"
             f2 = argmap(ref, a2, None)
@@ -255,7 +430,10 @@ def case_args(mon, rng, obs):
     mon.set_templates(texts)
     out = mon.expand(page)
     obs.count("depth.%d" % depth)
-    case = {"kind": "args", "page": page, "templates": {k: v for k, v in texts.items() if k.startswith("w")}, "depth": depth}
+    for f in feats:
+        obs.count("args.shape." + f)
+    case = {"kind": "args", "page": page, "templates": {k: v for k, v in texts.items() if k.startswith("w")}, "depth": depth,
+            "shapes": sorted(feats)}
     probs = []
     cls = ""
     if any(isinstance(k, int) and v.endswith("\n") for k, v in exp_args.items()) or \
@@ -270,11 +448,18 @@ def case_args(mon, rng, obs):
         return case, [("returned-string-does-not-replace-call" + cls, out[:300])], False
     got_args, ok = parse_ser(m.group(1))
     obs.check("frame-args==rule")
-    if not ok:
+    if not ok and "name-with-nested-call" in feats and any(raw.strip() in m.group(1) for raw, _ in COMPUTED_NAMES):
+        # (the name reached Lua as an internal placeholder character: its byte length differs from the final text)
+        probs.append(("frame-args!=rule/keys/name-with-nested-call" + cls, m.group(1)[:200]))
+    elif not ok and HMARK.search(m.group(1)):
+        # (an internal placeholder character reached Lua inside the value: byte lengths differ from the final text)
+        probs.append(("heading-shaped-text/inner-text-not-expanded", m.group(1)[:200]))
+    elif not ok:
         probs.append(("echo-unparseable", m.group(1)[:200]))
     elif got_args != exp_args:
-        kd = set(map(repr, got_args)) != set(map(repr, exp_args))
-        probs.append(("frame-args!=rule/%s%s" % ("keys" if kd else "values", cls), "expected=%r got=%r" % (exp_args, got_args)))
+        tag = classify(exp_args, got_args, feats, passed_on=depth > 0 and "{{{" in render_args(iargs))
+        probs.append((tag[1:] if tag.startswith("=") and not cls else "frame-args!=rule/%s%s" % (tag.lstrip("=/"), cls),
+                      "expected=%r got=%r" % (exp_args, got_args)))
     # direct indexing agrees with pairs
     for mm in re.finditer(r"\{([^=}]*)=(NIL|(\d+):)", m.group(2)):
         pass
@@ -298,8 +483,9 @@ def case_args(mon, rng, obs):
             if title != ptitle:
                 probs.append(("parent-title!=enclosing-template" + cls, "%r != %r" % (title, ptitle)))
             if not ok2 or pargs != frame:
-                kd = set(map(repr, pargs)) != set(map(repr, frame))
-                probs.append(("parent-args!=rule/%s%s" % ("keys" if kd else "values", cls), "expected=%r got=%r" % (frame, pargs)))
+                tag = classify(frame, pargs, feats, parent=True) if ok2 else "/unparseable"
+                probs.append((tag[1:] if tag.startswith("=") and not cls else "parent-args!=rule/%s%s" % (tag.lstrip("=/"), cls),
+                              "expected=%r got=%r" % (frame, pargs)))
     return case, probs, True
 
 
@@ -316,6 +502,15 @@ def case_pre(mon, rng, obs):
     frag = G.render(G.seq(rng, rng.randint(1, 3), list(LIBT), False, cfg, tags))
     if rng.random() < 0.2:
         frag += rng.choice(["[[a|b]]", "'''b'''", "{{PAGENAME}}", "{{#expr:1+1}}", "<nowiki>{{ta}}</nowiki>", "{{lc:ABC}}", "* x"])
+    hshape = False
+    if rng.random() < 0.12:
+        # the whole fragment is shaped like a heading line: '==' + text and calls + '=='
+        frag = G.render(heading_value(rng, list(LIBT), False, tags))
+        if rng.random() < 0.3:
+            frag = frag[0] + rng.choice(["{{PAGENAME}}", "{{lc:ABC}}", " {{#expr:1+1}} ", "[[a|b]]"]).join(
+                [frag[1:len(frag) // 2], frag[len(frag) // 2:]])
+        hshape = re.fullmatch(r"(=+)([^=]+)\1", frag) is not None
+        obs.count("pre.heading-shaped")
     mon.set_templates(LIBT)
     dm = mon.data_module({"text": frag})
     fn = rng.choice(["pre", "pre", "pre2"])
@@ -330,6 +525,9 @@ def case_pre(mon, rng, obs):
     if not m:
         return case, [("returned-string-does-not-replace-call", out[:300])], False
     if m.group(1) != exp:
+        if HMARK.search(m.group(1)) and not HMARK.search(exp):
+            sig = "heading-shaped-text/" + ("strip-marker-added" if HMARK.sub("", m.group(1)) == exp else "inner-text-not-expanded")
+            return case, [(sig, "preprocess=%r expand=%r" % (m.group(1), exp))], True
         feat = "heading-only" if re.fullmatch(r"(=+)[^=]+\1", frag) else "fragment"
         for t, nm in (("<nowiki", "nowiki"), ("<!--", "comment"), ("[[", "link"), ("{{PAGENAME", "magicword"), ("{{#expr", "expr")):
             if t in frag:
@@ -400,14 +598,41 @@ def case_cpf(mon, rng, obs):
     form = rng.choice([1, 2, 3])
     if form == 1 and not args and rng.random() < 0.5:
         form = 2
-    dm = mon.data_module({"name": name, "args": args, "form": form})
+    targs = args
+    wargs = args
+    tshape = ""
+    if form != 1 and rng.random() < 0.35:
+        # arguments given as a Lua table that is more than a short sequence.  The equivalent call is the one the
+        # Scribunto manual defines (same rule as for expandTemplate): keys 1..n are the positional values in
+        # numeric order, every other key k is the argument 'k=value'
+        if rng.random() < 0.5:
+            name = rng.choice(["#switch", "#switch", "#tag", "#if", "#ifeq", "lc"])
+            pos = {"#switch": [rng.choice(["a", "b", "q"])], "#tag": ["span", plain(rng, edge=False)], "#if": [rng.choice(["", "x"])],
+                   "#ifeq": ["a", rng.choice(["a", "b"])], "lc": ["AB"]}[name]
+            keys = rng.sample(["a", "b", "c", "#default"] if name == "#switch" else ["class", "id", "k"], rng.randint(1, 3))
+            named = {k: rng.choice(["1", "2", "y", "z w"]) for k in keys}
+            tshape = "named-key"
+        else:
+            name = "#switch"
+            pos = [rng.choice(["q", "a", "b"])] + [rng.choice(["a", "b", "c", "d", "e", "a=1", "b=2", "c=3", "x"]) for _ in range(rng.randint(9, 12))]
+            pos[-1] = "last"
+            named = {}
+            tshape = "10+positional"
+        targs = {i + 1: v for i, v in enumerate(pos)}
+        targs.update(named)
+        wargs = pos + ["%s=%s" % (k, named[k]) for k in sorted(named)]
+        args = wargs
+        obs.count("cpf.table." + tshape)
+    dm = mon.data_module({"name": name, "args": targs, "form": form})
     out = mon.expand("«{{#invoke:echo|cpf|%s}}»" % dm)
-    wt = "{{" + name + (":" + "|".join(args) if args else "") + "}}"
+    wt = "{{" + name + (":" + "|".join(wargs) if wargs else "") + "}}"
     exp = mon.expand(wt)
     obs.check("callParserFunction==wikitext")
     obs.check("result-replaces-call")
     obs.count("cpf.form.%d" % form)
     case = {"kind": "cpf", "name": name, "args": args, "form": form, "wikitext": wt}
+    if tshape:
+        case["table"] = {str(k): v for k, v in targs.items()}
     if out.startswith("\x02") or exp.startswith("\x02"):
         return case, [("raises-or-hangs:" + (out if out.startswith("\x02") else exp)[1:], out)], False
     m = re.search(r"«\x01A(.*?)\x01E»", out, re.S)
@@ -416,6 +641,9 @@ def case_cpf(mon, rng, obs):
     if m.group(1) != exp:
         first_edge = bool(args) and args[0] != args[0].lstrip()
         tag = "/first-arg-leading-blank" if first_edge else ""
+        if tshape:
+            return case, [("callParserFunction!=wikitext/table-arguments/%s/form=%d" % (tshape, form),
+                           "%s table=%r lua=%r wikitext %r -> %r" % (name, targs, m.group(1), wt, exp))], True
         return case, [("callParserFunction!=wikitext/%s%s" % (name, tag), "form=%d lua=%r wikitext %r -> %r" % (form, m.group(1), wt, exp))], True
     return case, [], True
 
@@ -455,6 +683,7 @@ def replay(case):
     k = case["kind"]
     if k == "args":
         t = dict(LIBT)
+        t.update(LIBX)
         t.update(case.get("templates", {}))
         mon.set_templates(t)
         out["output"] = mon.expand(case["page"])
@@ -471,7 +700,10 @@ def replay(case):
         out["expand"] = mon.expand(case["wikitext"])
     else:
         mon.set_templates(LIBT)
-        dm = mon.data_module({"name": case["name"], "args": case["args"], "form": case["form"]})
+        targs = case["args"]
+        if "table" in case:
+            targs = {(int(k) if k.isdigit() else k): v for k, v in case["table"].items()}
+        dm = mon.data_module({"name": case["name"], "args": targs, "form": case["form"]})
         out["lua"] = mon.expand("«{{#invoke:echo|cpf|%s}}»" % dm)
         out["expand"] = mon.expand(case["wikitext"])
     mon.close()
